@@ -403,9 +403,13 @@ func (n *CandidateNode) UpdateFrom(other *CandidateNode, prefs assignPreferences
 		n.Style = other.Style
 	}
 
+	// take the children before touching n: other may contain n (.a.b = .a),
+	// and clearing n's content first would be copied into the result
+	newChildren := other.Copy().Content
+
 	n.Content = make([]*CandidateNode, 0)
 	n.Kind = other.Kind
-	n.AddChildren(other.Content)
+	n.AddChildren(newChildren)
 
 	n.Value = other.Value
 
